@@ -275,6 +275,9 @@ class Executor:
                 return FuncV(q)
             return StubV("%s.%s" % (obj.__module__, obj.__qualname__))
         if isinstance(obj, (types.BuiltinFunctionType, types.BuiltinMethodType)):
+            owner = getattr(obj, "__self__", None)
+            if isinstance(owner, type):
+                return StubV("%s.%s" % (owner.__name__, obj.__name__))
             mod = getattr(obj, "__module__", None) or "builtins"
             return StubV(("%s.%s" % (mod, obj.__name__)) if mod != "builtins" else obj.__name__)
         if isinstance(obj, (set, frozenset, dict, list)):
@@ -579,6 +582,8 @@ class Executor:
         return None, None
 
     def binop(self, op, a, b, st):
+        if isinstance(a, Opaque) or isinstance(b, Opaque):
+            return [self.res(st, Opaque("arith"))]
         ta, ra = self.num(a)
         tb, rb = self.num(b)
         if ta is not None and tb is not None:
